@@ -10,7 +10,7 @@ holds; what is not cached names the location `T` records).  Over a file on which
   * and reads only node records of `T` and — unless the value was asked for — header+key ranges
     of item records of `T`.
 -/
-import Gkv.Model.Cache
+import Gkv.Model.CacheIO
 import Gkv.Proofs.FlushCoherent
 import Gkv.Proofs.Lazy
 open Std
@@ -541,5 +541,380 @@ theorem own_value_disjoint (il : Ploc) (kl vl : Nat) :
     (valueRange il kl vl).1 + (valueRange il kl vl).2 ≤ il.off ∨
       il.off + itemHdrLen + kl ≤ (valueRange il kl vl).1 := by
   right; unfold valueRange; simp
+
+end Gkv.Cache
+
+/-! ### range visits -/
+
+namespace Gkv.Cache
+open Gkv Gkv.Lazy Gkv.Tree
+
+/-- what the visitor saw agrees, item by item and depth by depth, with Model A's visit -/
+def AgreeVisit (wv : Bool) : List (Found × Nat) → List (Item × Nat) → Prop
+  | [], [] => True
+  | (fd, d) :: xs, (i, d') :: ys => Agrees (some fd) (some i) wv ∧ d = d' ∧ AgreeVisit wv xs ys
+  | _, _ => False
+
+theorem agreeVisit_append {wv : Bool} : ∀ {xs : List (Found × Nat)} {xs' : List (Item × Nat)}
+    {ys : List (Found × Nat)} {ys' : List (Item × Nat)},
+    AgreeVisit wv xs xs' → AgreeVisit wv ys ys' → AgreeVisit wv (xs ++ ys) (xs' ++ ys')
+  | [], [], _, _, _, h => h
+  | [], _ :: _, _, _, h, _ => by cases h
+  | _ :: _, [], _, _, h, _ => by cases h
+  | (_, _) :: xs, (_, _) :: xs', _, _, h, h' =>
+    ⟨h.1, h.2.1, agreeVisit_append (xs := xs) (xs' := xs') h.2.2 h'⟩
+
+/-- the abstract visit: `Tree.visitAsc` / `Tree.visitDesc` -/
+def absVisit (cmp : Bytes → Bytes → Ordering) (asc : Bool) (T : Tree) (tgt : Bytes) (d : Nat) :
+    List (Item × Nat) :=
+  if asc then Tree.visitAsc cmp T tgt d else Tree.visitDesc cmp T tgt d
+
+/-- `VisitItemsAscend` / `VisitItemsDescend` (never-stopping visitor) on any cached view of a
+    coherent tree: succeeds, presents exactly Model A's sequence with the true depths (values
+    whenever asked for, never a wrong one), leaves a view of the same tree, reads only what
+    `Allowed` admits -/
+theorem visitC_spec (f : Bytes) (bound : Nat) (cmp : Bytes → Bytes → Ordering) (asc wv : Bool)
+    (tgt : Bytes) :
+    ∀ (fuel : Nat) (c : CTree) (T : Tree) (d : Nat), T.Coherent f bound → Rep c T → T.height < fuel →
+    ∃ out c' rds, visitC f cmp asc wv fuel c tgt d = some (out, c', rds) ∧ Rep c' T ∧
+      AgreeVisit wv out (absVisit cmp asc T tgt d) ∧ ∀ rd ∈ rds, Allowed wv T rd := by
+  intro fuel
+  induction fuel with
+  | zero => intro c T _ _ _ h; omega
+  | succ fuel ih =>
+    intro c T d hc hr hf
+    obtain ⟨c1, r1, e1, hr1, hns, ha1⟩ := loadNode_rep f bound c T hc hr
+    cases c1 with
+    | stub loc => exact absurd rfl (hns loc)
+    | nil =>
+      have := rep_nil_left hr1
+      subst this
+      refine ⟨[], .nil, r1, ?_, trivial, ?_, fun rd h => ha1 rd h wv⟩
+      · simp only [visitC, e1, bind, Option.bind]
+      · cases asc <;> exact trivial
+    | node cl ci nn nb cr cp =>
+      cases T with
+      | nil => cases hr1
+      | node l i a b r p q =>
+        obtain ⟨hnn, hnb, hcp, hrl, hrr, hri⟩ := hr1
+        subst hnn hnb hcp
+        have hcc := hc
+        obtain ⟨hcl, hcr, hci, _⟩ := hcc
+        obtain ⟨ci1, r2, e2, hri1, hs1, hrd2⟩ := loadItem_rep f bound false ci i q hci hri
+        obtain ⟨v1, hv1, _, _⟩ := hs1
+        have ha2 := loadItem_allowed (l := l) (r := r) (i := i) (a := nn) (b := nb) (p := cp) (q := q)
+          false wv (fun h => by cases h) hrd2
+        simp only [Tree.height] at hf
+        obtain ⟨ci2, r4, e4, hri2, hs2, hrd4⟩ := loadItem_rep f bound wv ci1 i q hci hri1
+        obtain ⟨v2, hv2, hv2a, hv2b⟩ := hs2
+        have ha4 := loadItem_allowed (l := l) (r := r) (i := i) (a := nn) (b := nb) (p := cp) (q := q)
+          wv wv (fun h => h) hrd4
+        have hagI : Agrees (some (⟨i.key, i.prio, v2⟩ : Found)) (some i) wv := ⟨rfl, rfl, hv2a, hv2b⟩
+        obtain ⟨xl, l', rl, el, hrl', hagl, hal⟩ := ih cl l (d + 1) hcl hrl (by omega)
+        obtain ⟨xr, r', rr, er, hrr', hagr, har⟩ := ih cr r (d + 1) hcr hrr (by omega)
+        -- the reads of the three parts are allowed reads of the whole tree
+        have hAl : ∀ rd ∈ rl, Allowed wv (.node l i nn nb r cp q) rd := fun rd h => Allowed.left (hal rd h)
+        have hAr : ∀ rd ∈ rr, Allowed wv (.node l i nn nb r cp q) rd := fun rd h => Allowed.right (har rd h)
+        have hA1 : ∀ rd ∈ r1, Allowed wv (.node l i nn nb r cp q) rd := fun rd h => ha1 rd h wv
+        cases asc with
+        | true =>
+          by_cases hgt : cmp tgt i.key = .gt
+          · refine ⟨xr, .node cl ci1.evict nn nb r' cp, r1 ++ r2 ++ rr, ?_,
+              ⟨rfl, rfl, rfl, hrl, hrr', repItem_evict hri1⟩, ?_, ?_⟩
+            · simp [visitC, e1, e2, hv1, hgt, er, bind, Option.bind]
+            · simpa [absVisit, Tree.visitAsc, hgt] using hagr
+            · intro rd hrd
+              simp only [List.mem_append] at hrd
+              rcases hrd with (h | h) | h
+              · exact hA1 rd h
+              · exact ha2 rd h
+              · exact hAr rd h
+          · have hne : (cmp tgt i.key != .gt) = true := by
+              cases h : cmp tgt i.key <;> simp_all
+            refine ⟨xl ++ (⟨i.key, i.prio, v2⟩, d) :: xr, .node l' ci2.evict nn nb r' cp,
+              r1 ++ r2 ++ rl ++ r4 ++ rr, ?_, ⟨rfl, rfl, rfl, hrl', hrr', repItem_evict hri2⟩, ?_, ?_⟩
+            · simp [visitC, e1, e2, hv1, hne, hgt, el, e4, hv2, er, bind, Option.bind]
+            · simp only [absVisit, Tree.visitAsc, hgt, ite_true, ite_false]
+              exact agreeVisit_append hagl ⟨hagI, rfl, hagr⟩
+            · intro rd hrd
+              simp only [List.mem_append] at hrd
+              rcases hrd with (((h | h) | h) | h) | h
+              · exact hA1 rd h
+              · exact ha2 rd h
+              · exact hAl rd h
+              · exact ha4 rd h
+              · exact hAr rd h
+        | false =>
+          by_cases hgt : cmp tgt i.key = .gt
+          · have hbe : (cmp tgt i.key == .gt) = true := by simp [hgt]
+            refine ⟨xr ++ (⟨i.key, i.prio, v2⟩, d) :: xl, .node l' ci2.evict nn nb r' cp,
+              r1 ++ r2 ++ rr ++ r4 ++ rl, ?_, ⟨rfl, rfl, rfl, hrl', hrr', repItem_evict hri2⟩, ?_, ?_⟩
+            · simp [visitC, e1, e2, hv1, hbe, hgt, el, e4, hv2, er, bind, Option.bind]
+            · simp only [absVisit, Tree.visitDesc, hgt, ite_true, Bool.false_eq_true, ite_false]
+              exact agreeVisit_append hagr ⟨hagI, rfl, hagl⟩
+            · intro rd hrd
+              simp only [List.mem_append] at hrd
+              rcases hrd with (((h | h) | h) | h) | h
+              · exact hA1 rd h
+              · exact ha2 rd h
+              · exact hAr rd h
+              · exact ha4 rd h
+              · exact hAl rd h
+          · have hbe : (cmp tgt i.key == .gt) = false := by
+              cases h : cmp tgt i.key <;> simp_all
+            refine ⟨xl, .node l' ci1.evict nn nb cr cp, r1 ++ r2 ++ rl, ?_,
+              ⟨rfl, rfl, rfl, hrl', hrr, repItem_evict hri1⟩, ?_, ?_⟩
+            · simp [visitC, e1, e2, hv1, hbe, hgt, el, bind, Option.bind]
+            · simpa [absVisit, Tree.visitDesc, hgt] using hagl
+            · intro rd hrd
+              simp only [List.mem_append] at hrd
+              rcases hrd with (h | h) | h
+              · exact hA1 rd h
+              · exact ha2 rd h
+              · exact hAl rd h
+
+end Gkv.Cache
+
+/-! ### range visits that stop early -/
+
+namespace Gkv.Cache
+open Gkv Gkv.Lazy Gkv.Tree
+
+theorem agreeVisit_length {wv : Bool} : ∀ {xs : List (Found × Nat)} {ys : List (Item × Nat)},
+    AgreeVisit wv xs ys → xs.length = ys.length
+  | [], [], _ => rfl
+  | [], _ :: _, h => by cases h
+  | _ :: _, [], h => by cases h
+  | (_, _) :: xs, (_, _) :: ys, h => by
+    simp only [List.length_cons]
+    rw [agreeVisit_length (xs := xs) (ys := ys) h.2.2]
+
+/-- `VisitItemsAscend` / `VisitItemsDescend` with a visitor that stops at the `b`-th item: the
+    visitor is handed exactly the first `b` items of Model A's sequence (all of it when it is
+    shorter), the budget left is `b - length`, what is left is a view of the same tree -/
+theorem visitCK_spec (f : Bytes) (bound : Nat) (cmp : Bytes → Bytes → Ordering) (asc wv : Bool)
+    (tgt : Bytes) :
+    ∀ (fuel : Nat) (c : CTree) (T : Tree) (d b : Nat), T.Coherent f bound → Rep c T →
+      T.height < fuel → 0 < b →
+    ∃ out b' c' rds, visitCK f cmp asc wv fuel c tgt d b = some (out, b', c', rds) ∧ Rep c' T ∧
+      AgreeVisit wv out ((absVisit cmp asc T tgt d).take b) ∧
+      b' = b - (absVisit cmp asc T tgt d).length ∧ ∀ rd ∈ rds, Allowed wv T rd := by
+  intro fuel
+  induction fuel with
+  | zero => intro c T _ _ _ _ h; omega
+  | succ fuel ih =>
+    intro c T d b hc hr hf hb
+    obtain ⟨c1, r1, e1, hr1, hns, ha1⟩ := loadNode_rep f bound c T hc hr
+    cases c1 with
+    | stub loc => exact absurd rfl (hns loc)
+    | nil =>
+      have := rep_nil_left hr1
+      subst this
+      refine ⟨[], b, .nil, r1, ?_, trivial, ?_, ?_, fun rd h => ha1 rd h wv⟩
+      · simp only [visitCK, e1, bind, Option.bind]
+      · cases asc <;> simp [absVisit, Tree.visitAsc, Tree.visitDesc, AgreeVisit]
+      · cases asc <;> simp [absVisit, Tree.visitAsc, Tree.visitDesc]
+    | node cl ci nn nb cr cp =>
+      cases T with
+      | nil => cases hr1
+      | node l i a b0 r p q =>
+        obtain ⟨hnn, hnb, hcp, hrl, hrr, hri⟩ := hr1
+        subst hnn hnb hcp
+        have hcc := hc
+        obtain ⟨hcl, hcr, hci, _⟩ := hcc
+        obtain ⟨ci1, r2, e2, hri1, hs1, hrd2⟩ := loadItem_rep f bound false ci i q hci hri
+        obtain ⟨v1, hv1, _, _⟩ := hs1
+        have ha2 := loadItem_allowed (l := l) (r := r) (i := i) (a := nn) (b := nb) (p := cp) (q := q)
+          false wv (fun h => by cases h) hrd2
+        simp only [Tree.height] at hf
+        obtain ⟨ci2, r4, e4, hri2, hs2, hrd4⟩ := loadItem_rep f bound wv ci1 i q hci hri1
+        obtain ⟨v2, hv2, hv2a, hv2b⟩ := hs2
+        have ha4 := loadItem_allowed (l := l) (r := r) (i := i) (a := nn) (b := nb) (p := cp) (q := q)
+          wv wv (fun h => h) hrd4
+        have hagI : Agrees (some (⟨i.key, i.prio, v2⟩ : Found)) (some i) wv := ⟨rfl, rfl, hv2a, hv2b⟩
+        have hA1 : ∀ rd ∈ r1, Allowed wv (.node l i nn nb r cp q) rd := fun rd h => ha1 rd h wv
+        -- the generic step: near subtree N (view cn), far subtree F (view cf)
+        have step : ∀ (cn cf : CTree) (N F : Tree), N.Coherent f bound → F.Coherent f bound →
+            Rep cn N → Rep cf F → N.height < fuel → F.height < fuel →
+            (∀ rd, Allowed wv N rd → Allowed wv (.node l i nn nb r cp q) rd) →
+            (∀ rd, Allowed wv F rd → Allowed wv (.node l i nn nb r cp q) rd) →
+            ∀ (LN LF : List (Item × Nat)), LN = absVisit cmp asc N tgt (d+1) → LF = absVisit cmp asc F tgt (d+1) →
+            ∃ out b' cn' cf' ci' rds,
+              (do
+                let (xs, b1, n', r3) ← visitCK f cmp asc wv fuel cn tgt (d+1) b
+                if b1 = 0 then some (xs, 0, n', cf, ci1.evict, r1 ++ r2 ++ r3)
+                else do
+                  let (it2, r4) ← loadItem f wv ci1
+                  let fd2 ← it2.found
+                  if b1 = 1 then some (xs ++ [(fd2, d)], 0, n', cf, it2.evict, r1 ++ r2 ++ r3 ++ r4)
+                  else do
+                    let (ys, b2, f', r5) ← visitCK f cmp asc wv fuel cf tgt (d+1) (b1 - 1)
+                    some (xs ++ (fd2, d) :: ys, b2, n', f', it2.evict, r1 ++ r2 ++ r3 ++ r4 ++ r5))
+                = some (out, b', cn', cf', ci', rds) ∧
+              Rep cn' N ∧ Rep cf' F ∧ RepItem ci' i q ∧
+              AgreeVisit wv out ((LN ++ (i, d) :: LF).take b) ∧ b' = b - (LN ++ (i, d) :: LF).length ∧
+              ∀ rd ∈ rds, Allowed wv (.node l i nn nb r cp q) rd := by
+          intro cn cf N F hcN hcF hrN hrF hhN hhF hAN hAF LN LF hLN hLF
+          obtain ⟨xs, b1, n', r3, e3, hrN', hagN, hb1, haN⟩ := ih cn N (d + 1) b hcN hrN hhN hb
+          rw [← hLN] at hagN hb1
+          have hlenN := agreeVisit_length hagN
+          by_cases h0 : b1 = 0
+          · refine ⟨xs, 0, n', cf, ci1.evict, r1 ++ r2 ++ r3, ?_, hrN', hrF, repItem_evict hri1, ?_, ?_, ?_⟩
+            · simp only [e3, h0, bind, Option.bind, ite_true]
+            · have : b ≤ LN.length := by omega
+              rw [List.take_append_of_le_length this]
+              exact hagN
+            · simp only [List.length_append, List.length_cons]; omega
+            · intro rd hrd
+              simp only [List.mem_append] at hrd
+              rcases hrd with (h | h) | h
+              · exact hA1 rd h
+              · exact ha2 rd h
+              · exact hAN rd (haN rd h)
+          · have hlt : LN.length < b := by omega
+            have htk : LN.take b = LN := List.take_of_length_le (by omega)
+            rw [htk] at hagN
+            by_cases h1 : b1 = 1
+            · refine ⟨xs ++ [(⟨i.key, i.prio, v2⟩, d)], 0, n', cf, ci2.evict, r1 ++ r2 ++ r3 ++ r4, ?_,
+                hrN', hrF, repItem_evict hri2, ?_, ?_, ?_⟩
+              · subst h1
+                simp [e3, e4, hv2, bind, Option.bind]
+              · have hb' : b = LN.length + 1 := by omega
+                have : (LN ++ (i, d) :: LF).take b = LN ++ [(i, d)] := by
+                  rw [hb', List.take_length_add_append]
+                  simp
+                rw [this]
+                exact agreeVisit_append hagN ⟨hagI, rfl, trivial⟩
+              · simp only [List.length_append, List.length_cons]; omega
+              · intro rd hrd
+                simp only [List.mem_append] at hrd
+                rcases hrd with ((h | h) | h) | h
+                · exact hA1 rd h
+                · exact ha2 rd h
+                · exact hAN rd (haN rd h)
+                · exact ha4 rd h
+            · obtain ⟨ys, b2, f', r5, e5, hrF', hagF, hb2, haF⟩ :=
+                ih cf F (d + 1) (b1 - 1) hcF hrF hhF (by omega)
+              rw [← hLF] at hagF hb2
+              refine ⟨xs ++ (⟨i.key, i.prio, v2⟩, d) :: ys, b2, n', f', ci2.evict,
+                r1 ++ r2 ++ r3 ++ r4 ++ r5, ?_, hrN', hrF', repItem_evict hri2, ?_, ?_, ?_⟩
+              · simp only [e3, h0, e4, hv2, h1, e5, bind, Option.bind, ite_false]
+              · have : (LN ++ (i, d) :: LF).take b = LN ++ (i, d) :: LF.take (b1 - 1) := by
+                  have hb' : b = LN.length + ((b1 - 1) + 1) := by omega
+                  rw [hb', List.take_length_add_append]
+                  simp
+                rw [this]
+                exact agreeVisit_append hagN ⟨hagI, rfl, hagF⟩
+              · simp only [List.length_append, List.length_cons]; omega
+              · intro rd hrd
+                simp only [List.mem_append] at hrd
+                rcases hrd with (((h | h) | h) | h) | h
+                · exact hA1 rd h
+                · exact ha2 rd h
+                · exact hAN rd (haN rd h)
+                · exact ha4 rd h
+                · exact hAF rd (haF rd h)
+        cases asc with
+        | true =>
+          by_cases hgt : cmp tgt i.key = .gt
+          · obtain ⟨ys, b2, r', rr, er, hrr', hagr, hb2, har⟩ := ih cr r (d + 1) b hcr hrr (by omega) hb
+            refine ⟨ys, b2, .node cl ci1.evict nn nb r' cp, r1 ++ r2 ++ rr, ?_,
+              ⟨rfl, rfl, rfl, hrl, hrr', repItem_evict hri1⟩, ?_, ?_, ?_⟩
+            · simp [visitCK, e1, e2, hv1, hgt, er, bind, Option.bind]
+            · simpa [absVisit, Tree.visitAsc, hgt] using hagr
+            · simpa [absVisit, Tree.visitAsc, hgt] using hb2
+            · intro rd hrd
+              simp only [List.mem_append] at hrd
+              rcases hrd with (h | h) | h
+              · exact hA1 rd h
+              · exact ha2 rd h
+              · exact Allowed.right (har rd h)
+          · have hne : (cmp tgt i.key != .gt) = true := by
+              cases h : cmp tgt i.key <;> simp_all
+            obtain ⟨out, b', cn', cf', ci', rds, e, hrn, hrf, hri', hag, hb', hal⟩ :=
+              step cl cr l r hcl hcr hrl hrr (by omega) (by omega) (fun _ h => Allowed.left h)
+                (fun _ h => Allowed.right h) _ _ rfl rfl
+            refine ⟨out, b', .node cn' ci' nn nb cf' cp, rds, ?_, ⟨rfl, rfl, rfl, hrn, hrf, hri'⟩, ?_, ?_, hal⟩
+            · simp only [bind, Option.bind] at e
+              simp only [visitCK, e1, e2, hv1, hne, bind, Option.bind, ite_true]
+              revert e
+              cases visitCK f cmp true wv fuel cl tgt (d + 1) b with
+              | none => intro e; cases e
+              | some x =>
+                obtain ⟨xs, b1, n', r3⟩ := x
+                simp only
+                by_cases h0 : b1 = 0
+                · simp only [h0, ite_true]; intro e; cases e; rfl
+                · simp only [h0, ite_false, e4, hv2]
+                  by_cases h1 : b1 = 1
+                  · simp only [h1, ite_true]; intro e; cases e; rfl
+                  · simp only [h1, ite_false]
+                    cases visitCK f cmp true wv fuel cr tgt (d + 1) (b1 - 1) with
+                    | none => intro e; cases e
+                    | some y => obtain ⟨ys, b2, f', r5⟩ := y; simp only; intro e; cases e; rfl
+            · simpa [absVisit, Tree.visitAsc, hgt] using hag
+            · simpa [absVisit, Tree.visitAsc, hgt] using hb'
+        | false =>
+          by_cases hgt : cmp tgt i.key = .gt
+          · have hbe : (cmp tgt i.key == .gt) = true := by simp [hgt]
+            obtain ⟨out, b', cn', cf', ci', rds, e, hrn, hrf, hri', hag, hb', hal⟩ :=
+              step cr cl r l hcr hcl hrr hrl (by omega) (by omega) (fun _ h => Allowed.right h)
+                (fun _ h => Allowed.left h) _ _ rfl rfl
+            refine ⟨out, b', .node cf' ci' nn nb cn' cp, rds, ?_, ⟨rfl, rfl, rfl, hrf, hrn, hri'⟩, ?_, ?_, hal⟩
+            · simp only [bind, Option.bind] at e
+              simp only [visitCK, e1, e2, hv1, hbe, bind, Option.bind, ite_true, Bool.false_eq_true, ite_false]
+              revert e
+              cases visitCK f cmp false wv fuel cr tgt (d + 1) b with
+              | none => intro e; cases e
+              | some x =>
+                obtain ⟨xs, b1, n', r3⟩ := x
+                simp only
+                by_cases h0 : b1 = 0
+                · simp only [h0, ite_true]; intro e; cases e; rfl
+                · simp only [h0, ite_false, e4, hv2]
+                  by_cases h1 : b1 = 1
+                  · simp only [h1, ite_true]; intro e; cases e; rfl
+                  · simp only [h1, ite_false]
+                    cases visitCK f cmp false wv fuel cl tgt (d + 1) (b1 - 1) with
+                    | none => intro e; cases e
+                    | some y => obtain ⟨ys, b2, f', r5⟩ := y; simp only; intro e; cases e; rfl
+            · simpa [absVisit, Tree.visitDesc, hgt] using hag
+            · simpa [absVisit, Tree.visitDesc, hgt] using hb'
+          · have hbe : (cmp tgt i.key == .gt) = false := by
+              cases h : cmp tgt i.key <;> simp_all
+            obtain ⟨ys, b2, l', rl, el, hrl', hagl, hb2, hal⟩ := ih cl l (d + 1) b hcl hrl (by omega) hb
+            refine ⟨ys, b2, .node l' ci1.evict nn nb cr cp, r1 ++ r2 ++ rl, ?_,
+              ⟨rfl, rfl, rfl, hrl', hrr, repItem_evict hri1⟩, ?_, ?_, ?_⟩
+            · simp [visitCK, e1, e2, hv1, hbe, hgt, el, bind, Option.bind]
+            · simpa [absVisit, Tree.visitDesc, hgt] using hagl
+            · simpa [absVisit, Tree.visitDesc, hgt] using hb2
+            · intro rd hrd
+              simp only [List.mem_append] at hrd
+              rcases hrd with (h | h) | h
+              · exact hA1 rd h
+              · exact ha2 rd h
+              · exact Allowed.left (hal rd h)
+
+end Gkv.Cache
+
+/-! ### the executable form of `Rep` used by the driver (`cstatein`) -/
+
+namespace Gkv.Cache
+open Gkv
+
+theorem repItemB_iff (ci : CItem) (i : Item) (q : Option Ploc) : repItemB ci i q = true ↔ RepItem ci i q := by
+  cases ci with
+  | stub loc => simp [repItemB, RepItem]
+  | keyOnly k p loc => simp [repItemB, RepItem, and_assoc]
+  | full i' loc => simp [repItemB, RepItem]
+
+theorem repB_iff : ∀ (c : CTree) (T : Tree), repB c T = true ↔ Rep c T
+  | .nil, .nil => by simp [repB, Rep]
+  | .nil, .node _ _ _ _ _ _ _ => by simp [repB, Rep]
+  | .stub _, .nil => by simp [repB, Rep]
+  | .stub loc, .node _ _ _ _ _ p _ => by simp [repB, Rep]
+  | .node _ _ _ _ _ _, .nil => by simp [repB, Rep]
+  | .node cl ci nn nb cr cp, .node l i a b r p q => by
+    simp only [repB, Rep, Bool.and_eq_true, beq_iff_eq, repB_iff cl l, repB_iff cr r, repItemB_iff, and_assoc]
 
 end Gkv.Cache
